@@ -77,6 +77,9 @@ def match_known(v: dict, known: list[dict]) -> dict | None:
 
 def run_workers(job: dict, nworkers: int, env: dict, timeout_s: float) -> tuple[list[dict], list[str]]:
     work = tempfile.mkdtemp(prefix="verif-work-", dir=os.environ.get("VERIF_WORKDIR", None))
+    # XLA compile results are shared between the workers of this invocation (timing only, never results)
+    env = dict(env)
+    env["VERIF_JAX_CACHE"] = os.environ.get("VERIF_JAX_CACHE") or os.path.join(work, "jaxcache")
     errors: list[str] = []
     results: list[dict] = []
     try:
@@ -230,7 +233,13 @@ def main() -> int:
 
     # ------------------------------------------------------------------ violations
     known = load_known()
-    viols = [v for r in results for v in r.get("violations", [])]
+    viols = [v for r in results for v in r.get("violations", []) if v["property"] == prop]
+    others: dict = {}
+    for r in results:
+        for v in r.get("other", []):
+            others[(v["property"], v["clause"], v["site"])] = others.get((v["property"], v["clause"], v["site"]), 0) + 1
+    for (op_, cl, st), n in sorted(others.items()):
+        print(f"[{prop}] note: {n} run(s) also met a violation of {op_} ({cl}, site={st}); decided by ./check {op_}, not counted here")
     new_viols, known_hits = [], {}
     for v in viols:
         k = match_known(v, known)
